@@ -25,8 +25,7 @@ CLAIM = ("Every RREL expression derivable with up to d atoms from the alphabet i
          "alternative with a match (soundness, precedence) and must be None only if every alternative's match set is empty (completeness); with "
          "'+p:' the proxy must end in the same object and spell the name.")
 NOTE = ("Trusted: the 120-line set evaluator below (conventions: a path starting with a navigation starts at the model root, dots and parent(T) start at the "
-        "object; '..' beyond the root fails; parent(T) is the nearest strict ancestor conforming to T). Sibling names are unique per list, so 'the object "
-        "named n in a collection' is unique. '+m:' (other files) is covered by C17.")
+        "object; '..' beyond the root fails; parent(T) is the nearest strict ancestor conforming to T). Sibling names are unique per list in the first four models; the fifth has same-named siblings (every one of them is a candidate). '+m:' (other files) is covered by C17.")
 
 GRAMMAR = """
 Model: packages*=P;
@@ -41,6 +40,8 @@ MODELS = [
     "p a 1 { p a 2 { c b 3 { m a 4 } } c a 5 ext 3 { } } p b 6 { c a 7 ext 5 , 3 { m b 8 } }",
     "p a 1 { c a 2 ext 3 { m a 4 } c b 3 ext 2 { m b 5 } } p b 6 { p a 7 { c a 8 ext 2 { } } }",
     "p b 1 { p b 2 { p a 3 { c a 4 { m a 5 m b 6 } } } c b 7 ext 4 { } }",
+    # sibling names are NOT unique: only a later element of the same name leads to a match
+    "p a 1 { c a 2 { } c a 3 { m b 4 } } p a 5 { p a 8 { c a 9 { m a 10 } } c b 6 { m a 7 } }",
 ]
 
 
